@@ -1156,7 +1156,7 @@ castexpr(struct scope *s)
 	struct type *t, *ct;
 	struct decl *d;
 	enum typequal tq;
-	struct expr *r, *e, **end, *toeval;
+	struct expr *r, *e, *c, **end, *toeval;
 
 	ct = NULL;
 	end = &r;
@@ -1195,9 +1195,16 @@ castexpr(struct scope *s)
 	e = unaryexpr(s);
 
 done:
-	if (ct && ct != &typevoid && !(e->type->prop & PROPSCALAR))
-		error(&tok.loc, "cast operand must have scalar type");
 	*end = e;
+	/* check every cast of the chain against its own operand */
+	for (c = r; c != e; c = c->base) {
+		if (c->type == &typevoid)
+			continue;
+		if (!(c->base->type->prop & PROPSCALAR))
+			error(&tok.loc, "cast operand must have scalar type");
+		if (c->type->kind == TYPEPOINTER && c->base->type->prop & PROPFLOAT || c->type->prop & PROPFLOAT && c->base->type->kind == TYPEPOINTER)
+			error(&tok.loc, "cannot cast between pointer and floating types");
+	}
 	return r;
 }
 
